@@ -30,3 +30,9 @@ def _covers(c):
 
 
 harnesses = harnesses_for("C04", POST, _covers)
+
+
+def extra_checks(tier, seed, replay_dir, active_kf=()):
+    """E2: exact IEEE-754 execution of the float branch (engine/fpsym.py) - see harness/fp_extra.py"""
+    from harness import fp_extra
+    return fp_extra.run("C04", tier, replay_dir, active_kf)
